@@ -249,7 +249,7 @@ def _finding_registered(sig):
 
 
 def cases(rng, tier):
-    n = {"quick": 100, "thorough": 4000, "search": 6000}.get(tier, 100)
+    n = {"quick": 100, "thorough": 3000, "search": 5000}.get(tier, 100)
     # deterministic block: every class in every part, every mode; the division tuples of the property text
     for mode in MODES:
         yield gen_case(rng, mode, divs=[3, 4], allclasses=True)
